@@ -413,6 +413,10 @@ class Run:
             why = safe_pred(stream, ops, io)
             if why:
                 pred_fail.append((ops, why))
+                # a stream whose model mirrors a recorded finding keeps comparing the cases that show it
+                if getattr(stream, "compare_known", False) and io_c != mo_c and \
+                        self.known_finding(dict(stream=stream.name, ops=ops, impl=None, model=None, why=why, kind="predicate")):
+                    mism.append(ops)
             elif io_c != mo_c:
                 mism.append(ops)
         self.cov["evaluations"] += len(cases)
@@ -427,10 +431,14 @@ class Run:
         classes = {}
         for ops, why in sorted(pred_fail, key=lambda x: len(x[0])):
             classes.setdefault(re.sub(r"\d+", "N", why)[:80], (ops, why))
-        for ops, why in list(classes.values())[:12]:
+        tried = 0
+        for ops, why in list(classes.values()):
             if self.known_finding(dict(stream=stream.name, ops=ops, impl=None, model=None, why=why, kind="predicate")):
                 st["known"] += 1       # recognised without shrinking
                 continue
+            tried += 1
+            if tried > 12:
+                break
             def fails(c):
                 return bool(safe_pred(stream, c, stream.impl([c])[0], shrunk=True))
             small = ddmin(ops, stream.keep_prefix, fails)
@@ -457,6 +465,9 @@ class Run:
             small = ddmin(ops, stream.keep_prefix, differs)
             io, mo = stream.both(small)
             why = safe_pred(stream, small, io)
+            if why and getattr(stream, "compare_known", False) and \
+                    self.known_finding(dict(stream=stream.name, ops=small, impl=io, model=mo, why=why, kind="predicate")):
+                why = None             # the recorded finding is not what makes model and implementation differ here
             info = dict(stream=stream.name, ops=small, impl=io, model=mo, why=why, kind="mismatch")
             k = self.known_finding(info)
             if k:
